@@ -21,7 +21,7 @@ RULE = ("A: libFuzzer (custom line/token/number mutator + dictionary of keywords
         "(RunString, AccumulateLine*+RunAccumulated, RunFile, bytes as RunFile/LoadDatabase file name) and the string/file switches. "
         "B: Hypothesis picks 1-3 valid base blocks or grammar-built blocks and applies 0-3 structural mutations each (wrong/duplicated/missing "
         "options, unknown species/phases/elements, undefined entity numbers in USE/COPY/MIX/RUN_CELLS/*_MODIFY, extreme numbers, truncated or "
-        "broken BASIC, wrong keyword), run through RunString/RunAccumulated/RunFile on a new instance that has small.dat or (1 case in 8) one "
+        "broken BASIC, wrong keyword), run through RunString/RunAccumulated/RunFile on a new instance that has small.dat or (about 4 cases in 10) one "
         "of 13 shipped databases loaded. C: enumerated fault list (unreadable database/input/INCLUDE$ files x entry points, 5 output sinks x 6 "
         "unopenable path kinds x 3 entry points, file names inside the input text), each followed by reload + probe. "
         "Oracle per call (inside the sanitizer-built target): returns (no signal, ASan/UBSan report, escaping exception, exit); rc!=0 <=> error "
